@@ -548,43 +548,7 @@ func c15(c *core.Ctx, r *core.Report) {
 		}
 		isDone := func(v ssa.Value) bool { return stripAllocs(v) == ssa.Value(done) }
 		for _, ret := range an.Returns(rs) {
-			waited := false
-			// walk back: some dominating instruction receives from stageDone (select arm or explicit receive)
-			an.Instrs(rs, func(in ssa.Instruction) {
-				if !an.Dominates(in, ret) {
-					return
-				}
-				if u, ok := in.(*ssa.UnOp); ok && u.Op == token.ARROW && isDone(u.X) {
-					waited = true
-				}
-			})
-			if sel, idx := an.ArmOf(ret); sel != nil && idx >= 0 && isDone(sel.States[idx].Chan) {
-				waited = true
-			}
-			// returns after the select statement (fallthrough of an arm)
-			if !waited {
-				for _, sel := range an.Selects(rs) {
-					if !an.Dominates(sel, ret) {
-						continue
-					}
-					all := true
-					for idx, arm := range an.SelectArms(sel) {
-						if isDone(sel.States[idx].Chan) {
-							continue
-						}
-						got := false
-						for _, in := range arm.Instrs {
-							if u, ok := in.(*ssa.UnOp); ok && u.Op == token.ARROW && isDone(u.X) {
-								got = true
-							}
-						}
-						if !got && an.ReachableFrom(arm.Instrs[0], ret) {
-							all = false
-						}
-					}
-					waited = all
-				}
-			}
+			waited := returnAfterRecv(rs, ret, isDone, 2)
 			r.Check(waited, "runStage#joins-stage", an.Pos(c, ret), "this return is reached only after stageDone", "runStage can return while its stage goroutine is still triggering: the next stage overlaps it")
 		}
 		// env pairing, seen through helpers and deferred literals: the os.Setenv / os.Unsetenv calls reached from runStage
@@ -649,4 +613,68 @@ func c15(c *core.Ctx, r *core.Report) {
 			r.Violation("runStage#unset-on-every-exit", an.Pos(c, unset), "the deferred unsetEnvs does not cover every return")
 		}
 	})
+}
+
+// returnAfterRecv: the return is reached only after a receive from the channel isDone recognises — an explicit
+// receive or select arm dominating it, a select all of whose other arms receive from it before reaching the
+// return, or a call of a helper of the module that itself returns only after receiving from the channel handed to it.
+func returnAfterRecv(fn *ssa.Function, ret *ssa.Return, isDone func(ssa.Value) bool, depth int) bool {
+	waited := false
+	an.Instrs(fn, func(in ssa.Instruction) {
+		if !an.Dominates(in, ret) {
+			return
+		}
+		if u, ok := in.(*ssa.UnOp); ok && u.Op == token.ARROW && isDone(u.X) {
+			waited = true
+		}
+		if call, ok := in.(*ssa.Call); ok && depth > 0 {
+			t := an.Callee(call)
+			if t == nil || !core.InModule(t) || t.Blocks == nil {
+				return
+			}
+			for i, a := range call.Call.Args {
+				if !isDone(a) || i >= len(t.Params) {
+					continue
+				}
+				p := t.Params[i]
+				all := len(an.Returns(t)) > 0
+				for _, hr := range an.Returns(t) {
+					if !returnAfterRecv(t, hr, func(v ssa.Value) bool { return stripAllocs(v) == ssa.Value(p) }, depth-1) {
+						all = false
+					}
+				}
+				if all {
+					waited = true
+				}
+			}
+		}
+	})
+	if sel, idx := an.ArmOf(ret); sel != nil && idx >= 0 && isDone(sel.States[idx].Chan) {
+		waited = true
+	}
+	// returns after the select statement (fallthrough of an arm)
+	if !waited {
+		for _, sel := range an.Selects(fn) {
+			if !an.Dominates(sel, ret) {
+				continue
+			}
+			all := true
+			for idx, arm := range an.SelectArms(sel) {
+				if isDone(sel.States[idx].Chan) {
+					continue
+				}
+				got := false
+				for _, in := range arm.Instrs {
+					if u, ok := in.(*ssa.UnOp); ok && u.Op == token.ARROW && isDone(u.X) {
+						got = true
+					}
+				}
+				if !got && an.ReachableFrom(arm.Instrs[0], ret) {
+					all = false
+				}
+			}
+			waited = all
+		}
+	}
+	return waited
 }
